@@ -40,3 +40,27 @@ Definition rs_catchup_uptodate (cmax mx : N) : bool := N.leb (mx) (cmax).
 
 (* lib.rs, fn reset_node_state_if_update: max_version < node_state.last_gc_version() *)
 Definition rs_catchup_obsolete (mx cgc : N) : bool := N.ltb (mx) (cgc).
+
+(* state.rs, fn gc_keys_marked_for_deletion: now < deleted_start_instant + grace_period *)
+Definition rs_gc_keep (now t grace : Z) : bool := Z.ltb (now) (Z.add (t) (grace)).
+
+(* state.rs, fn gc_keys_marked_for_deletion: versioned_value.version.max(max_deleted_version) *)
+Definition rs_gc_watermark (ver acc cgc : N) : N := N.max (ver) (acc).
+
+(* state.rs, fn set_versioned_value: versioned_value_update.version.max(self.max_version) *)
+Definition rs_svv_max (ver cmax : N) : N := N.max (ver) (cmax).
+
+(* state.rs, fn set_versioned_value: occupied_versioned_value.version >= versioned_value_update.version *)
+Definition rs_svv_older (old ver : N) : bool := N.leb (ver) (old).
+
+(* state.rs, fn apply_delta: key_value_mutation.version <= current_max_version *)
+Definition rs_apply_known (ver cmax cgc : N) : bool := N.leb (ver) (cmax).
+
+(* state.rs, fn apply_delta: key_value_mutation.version <= self.last_gc_version *)
+Definition rs_apply_collected (ver cmax cgc : N) : bool := N.leb (ver) (cgc).
+
+(* lib.rs, fn reset_node_state_if_update: last_gc_version.max(node_state.last_gc_version()) *)
+Definition rs_catchup_new_gc (gc cgc mx cmax : N) : N := N.max (gc) (cgc).
+
+(* lib.rs, fn reset_node_state_if_update: max_version.max(node_state.max_version()) *)
+Definition rs_catchup_new_max (gc cgc mx cmax : N) : N := N.max (mx) (cmax).
